@@ -111,129 +111,135 @@ func runC07(c *Ctx) {
 		maxEdges = 6
 	}
 	c.Exhaustive = true
-	c.Rule = fmt.Sprintf("explicit priority: all insertion orders of <= %d of 7 prioritised rules (priorities -1, 0, 1, 1, 2, 10, and one that does not parse) x {never loaded, loaded empty, loaded from a store with two rules} followed by a removal, an update that keeps the priority, a batch add and a reload; the listed order and the decision are compared with the Lean model after every call; on the implementation the listed rules must be in non-decreasing priority order with equal priorities in insertion order, and the decision must be the effect of the matching rule of least priority; two prioritised definitions in one model (priority as last field of p, first field of p2, EnforceContext), all insertion orders, never loaded / loaded; subject priority: all role graphs with <= %d links on 4 names (trees, DAGs, cycles, self loops) loaded through the string adapter under a 5 s watchdog (every third with auto-build-role-links off, the links built by hand afterwards), loaded order and decisions vs the model (graphs whose order depends on map iteration are recognised by the model and skipped: finding D22); for forests the deeper subject's rule must precede; non-trivial = a case in which the insertion order differs from the priority order / a graph with at least two levels; distinct = case", maxIns, maxEdges)
-	cands := [][]string{{"-1", "alice", "data1", "read", "deny"}, {"0", "alice", "data1", "read", "allow"}, {"1", "alice", "data1", "read", "deny"},
+	c.Rule = fmt.Sprintf("explicit priority: all insertion orders of <= %d of 7 prioritised rules (priorities -1, 0, 1, 1, 2, 10, and one that does not parse; and of 5 rules whose priorities are written with leading zeros or a sign: 010, 9, 008, +7, 0011) x {never loaded, loaded empty, loaded from a store with two rules} followed by a removal, an update that keeps the priority, a batch add and a reload; the listed order and the decision are compared with the Lean model after every call; on the implementation the listed rules must be in non-decreasing priority order with equal priorities in insertion order, and the decision must be the effect of the matching rule of least priority; two prioritised definitions in one model (priority as last field of p, first field of p2, EnforceContext), all insertion orders, never loaded / loaded; subject priority: all role graphs with <= %d links on 4 names (trees, DAGs, cycles, self loops) loaded through the string adapter under a 5 s watchdog (every third with auto-build-role-links off, the links built by hand afterwards), loaded order and decisions vs the model (graphs whose order depends on map iteration are recognised by the model and skipped: finding D22); for forests the deeper subject's rule must precede; non-trivial = a case in which the insertion order differs from the priority order / a graph with at least two levels; distinct = case", maxIns, maxEdges)
+	candsMain := [][]string{{"-1", "alice", "data1", "read", "deny"}, {"0", "alice", "data1", "read", "allow"}, {"1", "alice", "data1", "read", "deny"},
 		{"1", "alice", "data1", "read", "allow"}, {"2", "alice", "data1", "read", "other"}, {"10", "admin", "data1", "read", "deny"}, {"x", "alice", "data1", "read", "allow"}}
 	ms := prioSpecModel()
 	c07TwoTypes(c)
 	starts := []string{"never-loaded", "loaded-empty", "loaded-two"}
 	req := []V{VS("alice"), VS("data1"), VS("read")}
-	for _, start := range starts {
-		for _, idx := range seqsUpTo(len(cands), maxIns) {
-			if len(idx) == 0 {
-				continue
-			}
-			opts := CaseOpts{}
-			if start != "never-loaded" {
-				opts.Adapter = true
-			}
-			if start == "loaded-two" {
-				opts.ALines = []memLineT{{"p", []string{"1", "bob", "data1", "read", "allow"}}, {"p", []string{"5", "alice", "data1", "read", "deny"}}, {"g", []string{"alice", "admin"}}}
-			}
-			s := StartCase(c, ms, opts)
-			if s == nil {
-				continue
-			}
-			seq := map[string]int{}
-			n := 0
-			note := func() {
-				pol := s.E.GetModel()["p"]["p"].Policy
-				present := map[string]bool{}
-				for _, r := range pol {
-					present[strings.Join(r, ",")] = true
+	// a second candidate set: priorities written with leading zeros and a sign are decimal numbers too
+	// ("010" is ten, "008" is eight, "+7" is seven)
+	candsPadded := [][]string{{"010", "alice", "data1", "read", "allow"}, {"9", "alice", "data1", "read", "deny"}, {"008", "alice", "data1", "read", "other"},
+		{"+7", "alice", "data1", "read", "allow"}, {"0011", "admin", "data1", "read", "deny"}}
+	for _, cands := range [][][]string{candsMain, candsPadded} {
+		for _, start := range starts {
+			for _, idx := range seqsUpTo(len(cands), maxIns) {
+				if len(idx) == 0 {
+					continue
 				}
-				for k := range seq {
-					if !present[k] {
-						delete(seq, k) // removed: a later re-insertion counts as new
+				opts := CaseOpts{}
+				if start != "never-loaded" {
+					opts.Adapter = true
+				}
+				if start == "loaded-two" {
+					opts.ALines = []memLineT{{"p", []string{"1", "bob", "data1", "read", "allow"}}, {"p", []string{"5", "alice", "data1", "read", "deny"}}, {"g", []string{"alice", "admin"}}}
+				}
+				s := StartCase(c, ms, opts)
+				if s == nil {
+					continue
+				}
+				seq := map[string]int{}
+				n := 0
+				note := func() {
+					pol := s.E.GetModel()["p"]["p"].Policy
+					present := map[string]bool{}
+					for _, r := range pol {
+						present[strings.Join(r, ",")] = true
+					}
+					for k := range seq {
+						if !present[k] {
+							delete(seq, k) // removed: a later re-insertion counts as new
+						}
+					}
+					for _, r := range pol {
+						k := strings.Join(r, ",")
+						if _, ok := seq[k]; !ok {
+							n++
+							seq[k] = n
+						}
 					}
 				}
-				for _, r := range pol {
-					k := strings.Join(r, ",")
-					if _, ok := seq[k]; !ok {
-						n++
-						seq[k] = n
-					}
-				}
-			}
-			note()
-			check := func(what string) {
-				s.Do(c, EOp{Kind: "obs", Args: []string{"pol", "p", "p"}})
-				obs := s.Do(c, EOp{Kind: "enfx", Req: req})
 				note()
-				pol := s.E.GetModel()["p"]["p"].Policy
-				if ok, why := sortedByPriority(pol, seq); !ok {
-					c.Direct("the listed rules are not in priority order", fmt.Sprintf("start=%s inserted=%v after %s: %s; policy=%v", start, pick(cands, idx), what, why, pol))
-				}
-				// least priority among the matching determinate rules decides (alice is also admin in loaded-two)
-				numeric := true
-				best, bestEft := 1<<30, ""
-				for _, r := range pol {
-					p, err := strconv.Atoi(r[0])
-					if err != nil {
-						numeric = false
-						break
+				check := func(what string) {
+					s.Do(c, EOp{Kind: "obs", Args: []string{"pol", "p", "p"}})
+					obs := s.Do(c, EOp{Kind: "enfx", Req: req})
+					note()
+					pol := s.E.GetModel()["p"]["p"].Policy
+					if ok, why := sortedByPriority(pol, seq); !ok {
+						c.Direct("the listed rules are not in priority order", fmt.Sprintf("start=%s inserted=%v after %s: %s; policy=%v", start, pick(cands, idx), what, why, pol))
 					}
-					matches := r[1] == "alice" || (r[1] == "admin" && start == "loaded-two")
-					if matches && r[2] == "data1" && r[3] == "read" && (r[4] == "allow" || r[4] == "deny") && p < best {
-						best, bestEft = p, r[4]
+					// least priority among the matching determinate rules decides (alice is also admin in loaded-two)
+					numeric := true
+					best, bestEft := 1<<30, ""
+					for _, r := range pol {
+						p, err := strconv.Atoi(r[0])
+						if err != nil {
+							numeric = false
+							break
+						}
+						matches := r[1] == "alice" || (r[1] == "admin" && start == "loaded-two")
+						if matches && r[2] == "data1" && r[3] == "read" && (r[4] == "allow" || r[4] == "deny") && p < best {
+							best, bestEft = p, r[4]
+						}
 					}
-				}
-				if numeric && (strings.HasPrefix(obs, "true") || strings.HasPrefix(obs, "false")) {
-					want := bestEft == "allow"
-					if strings.HasPrefix(obs, "true") != want {
-						// equal priorities: the earliest inserted decides; recompute with ties
-						tieOK := false
-						for _, r := range pol {
-							p, _ := strconv.Atoi(r[0])
-							matches := r[1] == "alice" || (r[1] == "admin" && start == "loaded-two")
-							if matches && p == best && (r[4] == "allow" || r[4] == "deny") {
-								tieOK = (r[4] == "allow") == strings.HasPrefix(obs, "true")
-								break
+					if numeric && (strings.HasPrefix(obs, "true") || strings.HasPrefix(obs, "false")) {
+						want := bestEft == "allow"
+						if strings.HasPrefix(obs, "true") != want {
+							// equal priorities: the earliest inserted decides; recompute with ties
+							tieOK := false
+							for _, r := range pol {
+								p, _ := strconv.Atoi(r[0])
+								matches := r[1] == "alice" || (r[1] == "admin" && start == "loaded-two")
+								if matches && p == best && (r[4] == "allow" || r[4] == "deny") {
+									tieOK = (r[4] == "allow") == strings.HasPrefix(obs, "true")
+									break
+								}
+							}
+							if !tieOK {
+								c.Direct("the decision is not the effect of the matching rule of least priority", fmt.Sprintf("start=%s policy=%v decision=%s", start, pol, obs))
 							}
 						}
-						if !tieOK {
-							c.Direct("the decision is not the effect of the matching rule of least priority", fmt.Sprintf("start=%s policy=%v decision=%s", start, pol, obs))
-						}
+					}
+					c.Evals++
+				}
+				for _, i := range idx {
+					s.Do(c, EOp{Kind: "add", Sec: "p", PType: "p", Rule: cands[i]})
+					check("add")
+				}
+				s.Do(c, EOp{Kind: "rm", Sec: "p", PType: "p", Rule: cands[idx[0]]})
+				note()
+				check("remove")
+				if len(idx) > 1 {
+					old := cands[idx[1]]
+					nw := append([]string(nil), old...)
+					nw[2] = "data1" // an update that keeps the priority (and the rule's meaning)
+					nw[4] = map[string]string{"allow": "deny", "deny": "allow", "other": "allow"}[old[4]]
+					s.Do(c, EOp{Kind: "upd", Sec: "p", PType: "p", Rule: old, New: nw})
+					check("update keeping the priority")
+				}
+				s.Do(c, EOp{Kind: "adds", Sec: "p", PType: "p", Ex: true, Rules: [][]string{{"0", "bob", "data1", "read", "deny"}, cands[idx[0]]}})
+				check("batch add")
+				if start != "never-loaded" {
+					s.Do(c, EOp{Kind: "load"})
+					seq = map[string]int{}
+					n = 0
+					note()
+					check("reload")
+				}
+				inOrder := true
+				for k := 1; k < len(idx); k++ {
+					if idx[k] < idx[k-1] {
+						inOrder = false
 					}
 				}
-				c.Evals++
-			}
-			for _, i := range idx {
-				s.Do(c, EOp{Kind: "add", Sec: "p", PType: "p", Rule: cands[i]})
-				check("add")
-			}
-			s.Do(c, EOp{Kind: "rm", Sec: "p", PType: "p", Rule: cands[idx[0]]})
-			note()
-			check("remove")
-			if len(idx) > 1 {
-				old := cands[idx[1]]
-				nw := append([]string(nil), old...)
-				nw[2] = "data1" // an update that keeps the priority (and the rule's meaning)
-				nw[4] = map[string]string{"allow": "deny", "deny": "allow", "other": "allow"}[old[4]]
-				s.Do(c, EOp{Kind: "upd", Sec: "p", PType: "p", Rule: old, New: nw})
-				check("update keeping the priority")
-			}
-			s.Do(c, EOp{Kind: "adds", Sec: "p", PType: "p", Ex: true, Rules: [][]string{{"0", "bob", "data1", "read", "deny"}, cands[idx[0]]}})
-			check("batch add")
-			if start != "never-loaded" {
-				s.Do(c, EOp{Kind: "load"})
-				seq = map[string]int{}
-				n = 0
-				note()
-				check("reload")
-			}
-			inOrder := true
-			for k := 1; k < len(idx); k++ {
-				if idx[k] < idx[k-1] {
-					inOrder = false
+				if !inOrder {
+					c.Nontrivial(start + fmt.Sprint(idx))
 				}
-			}
-			if !inOrder {
-				c.Nontrivial(start + fmt.Sprint(idx))
-			}
-			c.Count("start="+start, 1)
-			if c.Evals%977 == 1 {
-				c.Sample(fmt.Sprintf("%s: insert %v", start, pick(cands, idx)))
+				c.Count("start="+start, 1)
+				if c.Evals%977 == 1 {
+					c.Sample(fmt.Sprintf("%s: insert %v", start, pick(cands, idx)))
+				}
 			}
 		}
 	}
